@@ -40,6 +40,10 @@ CHECKS = {
             "failed evaluation = rejected; rejected hits cannot reach record_triggered; the only eval site gets the "
             "unchanged expression text with f_globals/f_locals of the callback's own frame and is reached by every "
             "expression consumer; failures are contained as values and discriminated before use.", "4/C10"),
+    "C13": ("object-sensitive value-dependence analysis of the registration handle (freshness/injectivity), shape rules of add/remove, argument forwarding by origin expansion",
+            "Static decision that the handle depends on a per-call fresh token (so equal arguments never give equal handles), that "
+            "removal matches that same quantity, deletes at most one entry and is harmless when repeated, that registrations are "
+            "appended with unchanged arguments alongside the service's tracepoints, and that the public API forwards everything unchanged.", "4/C13"),
     "C14": ("path-condition/dominance rules over start/shutdown, origin of the restore arguments, step-isolation via escape analysis",
             "Static rules deciding for every start/shutdown history and fault subset: start effects only when not "
             "started, settrace only when tracing is enabled, restore passes exactly the values saved before install "
